@@ -83,6 +83,9 @@ type Property struct {
 	Level string
 	Rule  string
 	Case  func(c *Ctx)
+	// Exhaustive, if set, enumerates a bounded space completely (slice part of parts); it is
+	// run once per worker before the sampled cases. A failing point is named by parameters.
+	Exhaustive func(c *Ctx, part, parts int)
 	Real  []string
 	Stubs []string
 	Assumptions []string
@@ -93,6 +96,24 @@ var properties = map[string]*Property{}
 func register(p *Property) { properties[p.ID] = p }
 
 // runCase executes one case and returns its failure (nil if the property held).
+// runExhaustive runs the property's exhaustive enumeration (or, on replay, its one point).
+func runExhaustive(p *Property, c *Ctx, part, parts int) (f *failure) {
+	gtree.SimResetGlobals()
+	markdown.SimResetGlobals()
+	defer func() {
+		if r := recover(); r != nil {
+			if _, ok := r.(caseAbort); ok {
+				f = c.fail
+				return
+			}
+			fmt.Fprintf(os.Stderr, "HARNESS-PANIC %v\n%s\n", r, debug.Stack())
+			os.Exit(3)
+		}
+	}()
+	p.Exhaustive(c, part, parts)
+	return c.fail
+}
+
 func runCase(p *Property, c *Ctx) (f *failure) {
 	// every case starts from the package-level state of a fresh process
 	gtree.SimResetGlobals()
@@ -135,9 +156,15 @@ func recordOf(c *Ctx, idx int, f *failure) *Record {
 func replayRecord(p *Property, rec *Record, trace bool) (string, *Record) {
 	c := newReplayCtx(rec, newStats())
 	c.keepTrace = trace
-	f := runCase(p, c)
+	var f *failure
+	if rec.Exhaustive {
+		f = runExhaustive(p, c, 0, 1)
+	} else {
+		f = runCase(p, c)
+	}
 	out := recordOf(c, rec.Index, f)
 	out.Gen = rec.Gen
+	out.Exhaustive = rec.Exhaustive
 	// parameters fixed by the input record stay fixed
 	for k, v := range rec.Params {
 		if _, ok := out.Params[k]; !ok {
@@ -192,6 +219,23 @@ func TestSim(t *testing.T) {
 		defer dump.Close()
 	}
 	shrunk := map[string]bool{}
+	if p.Exhaustive != nil && *fStride > 0 {
+		c := newGenCtx(p.ID, mix(*fSeed, 0xe8a5), st)
+		caseStart.Store(0)
+		if f := runExhaustive(p, c, *fFrom%*fStride, *fStride); f != nil {
+			res.SigCounts[f.sig]++
+			rec := recordOf(c, -1, f)
+			rec.Exhaustive = true
+			if sig2, _ := replayRecord(p, rec, false); sig2 != f.sig {
+				res.Nondet = append(res.Nondet, fmt.Sprintf("exhaustive point %v: generated %q, replay gave %q; detail: %s", rec.Params, f.sig, sig2, f.detail))
+			} else {
+				shrunk[f.sig] = true
+				_, full := replayRecord(p, rec, true)
+				full.Sig = f.sig
+				res.Failures = append(res.Failures, full)
+			}
+		}
+	}
 	// progress file + watchdog: a case that kills the process (fatal runtime error) or never
 	// ends (a loop that reaches no hook) is identified by the driver from the last index
 	var cur *os.File
